@@ -132,7 +132,7 @@ def fixed_scenarios():
 def random_scenario(rng):
     kind = rng.choice(["receiver-full", "receiver-full", "room-for-one", "room-for-one", "register-for-one", "room-for-none",
                        "register-for-none", "md-rotation", "not-adjacent", "ok", "ok"])
-    typ = "M" if kind == "md-rotation" else rng.choice(["K", "K", "M"])
+    typ = "M" if kind == "md-rotation" else rng.choice(["K", "M"])
     if kind == "receiver-full":
         typ = "K"                        # a measure-directly request hands no qubit over
     bases = rng.choice("ZXY") + rng.choice("ZXY")
